@@ -94,6 +94,28 @@ def ph_strings(rng, n_random):
     return out
 
 
+def url_strings(rng, n_random):
+    """Tag texts around the src= / href= attribute syntax (str; non-ASCII only as letters, see Model.v find_attr)."""
+    pres = ["<script", "<link", "", "<script data-x=\"1\"", "<script async", "x"]
+    befores = [" ", " data-", " x", " _", " -", "\n", "\t", "=", "\"", " é", " 9", "/", " data-src=\"lazy\" ", " data-href=\"lazy\"  "]
+    names = ["src", "href", "SRC", "sr", "srcset", "hre"]
+    eqs = ["=\"", "='", "=", " = \"", "=\"\""]
+    vals = ["s/a.js", "", "a b", "a'b", "a\nb", "x=\"y", "é.css", "a\" src=\"b.js"]
+    ends = ["\"", "", "\" defer", "\"></script>", "\" src=\"second.js\">", "' href=\"h.css\">"]
+    out = []
+    slots = [pres, befores, names, eqs, vals, ends]
+    for combo in itertools.product(*[range(len(x)) for x in slots]):
+        if sum(1 for c in combo if c != 0) <= 2:
+            out.append("".join(x[c] for x, c in zip(slots, combo)))
+    toks = ["src=\"", "href=\"", " ", "-", "a", "\"", "data-", "<script", ">", "x.js", "=", "é"]
+    for L in range(0, 4):
+        for seq in itertools.product(toks, repeat=L):
+            out.append("".join(seq))
+    for _ in range(n_random):
+        out.append("".join(rng.choice(toks + befores + vals) for _ in range(rng.randint(2, 9))))
+    return out
+
+
 def matcher_level(chk, thorough, batches):
     import django_components.dependencies as D
     rng = chk.rng
@@ -132,6 +154,16 @@ def matcher_level(chk, thorough, batches):
         terms.append("(%s, %s)" % (cstr(s), cstr(out)))
         chk.count(("ph", s), n[0] >= 1, kind="matcher:placeholder")
     batch("ph", "ph_case", "check_ph", terms, 400, strs, "hand matcher != PLACEHOLDER_REGEX.sub", "placeholder")
+    # src= / href= attribute of a Media tag
+    ustrs = url_strings(rng, 2000 if thorough else 500)
+    terms, cases = [], []
+    for t in ustrs:
+        for kind, rx in (("js", D.src_pattern), ("css", D.href_pattern)):
+            m = rx.search(t.strip())
+            terms.append("(%s, %s, %s)" % (U.c_kind(kind), cstr(t.strip().encode()), copt(None if m is None else cstr(m.group(1).encode()))))
+            cases.append(t.encode())
+            chk.count(("url", kind, t), m is not None and t.strip().count("=") >= 2, kind="matcher:url-attr")
+    batch("url", "url_case", "check_url", terms, 900, cases, "hand matcher != src_pattern / href_pattern .search", "url-attr")
 
 
 # ================================================================================================
@@ -172,7 +204,9 @@ def synth_docs(rng, zoo, hashes, n_random):
     phs = [b'<link name="CSS_PLACEHOLDER">', b'<link name="CSS_PLACEHOLDER"/>', b'<script name="JS_PLACEHOLDER"></script>',
            b'<link name="CSS_PLACEHOLDER" data-djc-id-a00001="" data-djc-id-a00002="">',
            b'<script name="JS_PLACEHOLDER" data-djc-css-0a1b2c="" data-djc-id-a00001="" data-djc-id-a00002="" data-djc-id-a00003=""></script>',
-           b'<script name="JS_PLACEHOLDER" data-djc-id-a0001=""></script>']
+           b'<script name="JS_PLACEHOLDER" data-djc-id-a0001=""></script>',
+           b'<link name="CSS_PLACEHOLDER" data-djc-id-a00001="" data-djc-id-a00002="" data-djc-css-0a1b2c=""/>',
+           b'<script name="JS_PLACEHOLDER" data-djc-id-a00001="" data-djc-css-0a1b2c="" data-djc-id-a00002=""></script>']
     bad_markers = [b"<!-- _RENDERED nohash -->", b"<!-- _RENDERED a,b,c,d,e -->", b"<!-- _RENDERED Nope_000000,a1b2c3,, -->",
                    b"<!-- _RENDERED ZooA_zzzzzz,a-b,, -->", b"<!-- _RENDERED x,y,G, -->", b"<!--_RENDERED x,y,, -->", b"<!-- _RENDERED x,y,,-->",
                    b"<!-- _RENDERED a b,y,, -->"]
@@ -289,12 +323,20 @@ def pipeline_level(chk, thorough, batches):
 # 3. end to end
 # ================================================================================================
 def classify(prog, what):
-    """Stable trigger string of an oracle failure, decidable on the input."""
-    if any(any(ord(ch) > 127 for ch in c["name"]) for c in prog["classes"]) and what in ("marker", "inline", "media", "fragment"):
-        return "c04-nonascii-classname"
-    if what in ("media", "fragment") and any(isinstance(f, list) and re.search(r'[\w-](src|href)="', f[1]) for c in prog["classes"] for f in c["mjs"]):
+    """Stable trigger string of an oracle failure, decidable on the input (root-cause class of the program)."""
+    cs = prog["classes"]
+    # a placeholder tag in some component template + a component with CSS variables: the placeholder may become a root element
+    # that carries a data-djc-css attribute behind its data-djc-id attributes (notes/fixes/C04-placeholder-css-attr-order.patch)
+    if any(c.get("cssdata") and U.nonempty_str(c.get("css")) for c in cs) and U.has_node({"page": [], "classes": cs}, ("jsdep", "cssdep")):
+        return "c04-placeholder-css-attr-order"
+    raw = [f[1] for c in cs for f in list(c["mjs"]) + (c["mcss"] if isinstance(c["mcss"], list) else []) if isinstance(f, list)]
+    if what in ("media", "fragment") and any(re.search(r'[\w-](src|href)="', t) for t in raw):
         return "c04-media-url-attr-name"
-    if what == "placeholder" and U.has_node({"page": [], "classes": prog["classes"]}, ("jsdep", "cssdep")):
+    if what == "core" and prog.get("entry") == "DynamicComponent.render":
+        return "c04-dynamic-double-postprocess"
+    if any(any(ord(ch) > 127 for ch in c["name"]) for c in cs) and what in ("marker", "inline", "media", "fragment"):
+        return "c04-nonascii-classname"
+    if what == "placeholder" and U.has_node({"page": [], "classes": cs}, ("jsdep", "cssdep")):
         return "c04-placeholder-multi-id"
     return "c04-e2e-" + what
 
@@ -302,16 +344,12 @@ def classify(prog, what):
 def e2e_oracle(chk, bu, typ, path, final, rec):
     """Direct property oracle on the final HTML of one rendering path. Returns the visible instance sequence."""
     prog = bu.prog
-    if path == U.PATHS[5]:
-        # DynamicComponent.render(): the inner root render has already inserted the tags; the dynamic component then marks
-        # the root elements of its own output - inserted <script>/<style>/<link> included - with its data-djc-id attribute
-        final = re.sub(r' data-djc-id-\w{6}=""', "", final)
     seq, nJ, nC = U.visible(final)
     order = [bu.clsof(x) for x in U.first_occ(seq)]
     idx_order = [x for x in U.first_occ(seq) if x not in ("P", "D")]
 
     def fail(what, msg, **kw):
-        chk.fail(classify(prog, what), msg, dict(rec, **kw))
+        chk.fail(classify(dict(prog, entry=path), what), msg, dict(rec, **kw))
     if "_RENDERED" in final:
         fail("marker", "render marker comment survives in the output")
     if "_PLACEHOLDER" in final:
@@ -347,15 +385,9 @@ def e2e_oracle(chk, bu, typ, path, final, rec):
         if got_cf != sorted(exp_css_files * kc):
             fail("media", "Media CSS files are not 'every file of the rendered classes exactly once'", expected=sorted(exp_css_files * kc), got=got_cf)
         ncore = sum(1 for t in els if t[0] == "core")
-        if path == U.PATHS[5]:
-            # DynamicComponent.render() post-processes twice (inner root render + itself): the core manager script - not a
-            # component asset, the statement is silent about it - may come twice; recorded, no alarm
-            chk.extra.setdefault("observations", {}).setdefault("core-script-count DynamicComponent.render (got, insertion points)", [])
-            ob = chk.extra["observations"]["core-script-count DynamicComponent.render (got, insertion points)"]
-            if (ncore, kj) not in ob and len(ob) < 8:
-                ob.append((ncore, kj))
-        elif ncore != kj:
-            fail("inline", "core script count != insertion points")
+        if ncore != kj:
+            # exactly one core manager script per place where the JS block is written (also on DynamicComponent.render(), fixed 41a2c66)
+            fail("core", "core script count %d != insertion points %d" % (ncore, kj))
         # the same, on the raw BYTES of the final document (what theorem final_html_counts speaks about): every inline
         # script / style and every Media URL attribute occurs copies(k) times as a byte string
         for c in order:
@@ -623,9 +655,8 @@ def run(tier, seed):
         "Media.render_js/render_css/merge are trusted",
         "a Media entry without any URL (SafeString tag without src/href) makes render_dependencies raise an explanatory RuntimeError: not a 'file from the Media', outside the "
         "statement; modelled as ErrMissingUrl, counted under pipeline:*:missingurl, no alarm",
-        "DynamicComponent.render() called from Python post-processes twice (inner root render, then itself): component JS/CSS/Media are still delivered once, the core manager "
-        "script may be written twice and inserted tags carry the dynamic component's data-djc-id attribute (stripped before the oracle on that path); the statement is silent "
-        "about the core script: recorded under coverage.observations, no alarm",
+        "the core manager script (django_components.min.js) is expected exactly once per place where the JS block is written, on every path "
+        "(DynamicComponent.render() included since fix 41a2c66)",
     ]
     return chk.finish(
         rule="matchers: skeleton mutations + token sequences + seeded random byte strings for the three regexes; pipeline: every sequence of <=3 markers over an 8-class zoo "
